@@ -24,8 +24,15 @@ typedef int (*cbce_fn)(void *, uint8_t *, uint8_t *, void *, uint64_t);
         void _XTS_AES_256_enc_##f(uint8_t *, uint8_t *, uint8_t *, uint64_t, const uint8_t *, uint8_t *);           \
         void _XTS_AES_256_dec_##f(uint8_t *, uint8_t *, uint8_t *, uint64_t, const uint8_t *, uint8_t *);
 XFAMS(XDECL)
-struct xfam { const char *name; xts_fn enc[2], dec[2]; };
-#define XENTRY(f) { #f, { _XTS_AES_128_enc_##f, _XTS_AES_256_enc_##f }, { _XTS_AES_128_dec_##f, _XTS_AES_256_dec_##f } },
+#define XDECLE(f) void _XTS_AES_128_enc_expanded_key_##f(uint8_t *, uint8_t *, uint8_t *, uint64_t, const uint8_t *, uint8_t *); \
+        void _XTS_AES_128_dec_expanded_key_##f(uint8_t *, uint8_t *, uint8_t *, uint64_t, const uint8_t *, uint8_t *);           \
+        void _XTS_AES_256_enc_expanded_key_##f(uint8_t *, uint8_t *, uint8_t *, uint64_t, const uint8_t *, uint8_t *);           \
+        void _XTS_AES_256_dec_expanded_key_##f(uint8_t *, uint8_t *, uint8_t *, uint64_t, const uint8_t *, uint8_t *);
+XFAMS(XDECLE)
+struct xfam { const char *name; xts_fn enc[2], dec[2], ence[2], dece[2]; };
+#define XENTRY(f) { #f, { _XTS_AES_128_enc_##f, _XTS_AES_256_enc_##f }, { _XTS_AES_128_dec_##f, _XTS_AES_256_dec_##f },          \
+                    { _XTS_AES_128_enc_expanded_key_##f, _XTS_AES_256_enc_expanded_key_##f },                                     \
+                    { _XTS_AES_128_dec_expanded_key_##f, _XTS_AES_256_dec_expanded_key_##f } },
 static struct xfam xfams[] = { XFAMS(XENTRY) };
 #define CFAMS(X) X(sse) X(avx) X(vaes_avx512)
 #define CDECL(f) void _aes_cbc_dec_128_##f(void *, uint8_t *, uint8_t *, void *, uint64_t); void _aes_cbc_dec_192_##f(void *, uint8_t *, uint8_t *, void *, uint64_t); \
@@ -100,6 +107,30 @@ int main(int argc, char **argv)
                                                 printf("MODIFIED-INPUT xts %s AES-%d N=%u\ncases=%lu\n", F->name, ks ? 256 : 128, n, cases); return 1; }
                                         if (memcmp(out, ref, n)) { printf("DIFFERENT-RESULT xts %s AES-%d N=%u (placement changes the ciphertext)\ncases=%lu\n", F->name, ks ? 256 : 128, n, cases); return 1; }
                                         if (memcmp(back, src, n)) { printf("ROUNDTRIP xts %s AES-%d N=%u: decrypt(encrypt(x)) != x\ncases=%lu\n", F->name, ks ? 256 : 128, n, cases); return 1; }
+                                        /* pre-expanded-key entry points: expanded schedules end at an unmapped page; byte-identical to the raw-key result */
+                                        {
+                                                static uint8_t e1[240], d1[240], e2[240], d2[240];
+                                                unsigned eb = ks ? 16 * 15 : 16 * 11;
+                                                if (ks) { isal_aes_keyexp_256(k1v, e1, d1); isal_aes_keyexp_256(k2v, e2, d2); }
+                                                else { isal_aes_keyexp_128(k1v, e1, d1); isal_aes_keyexp_128(k2v, e2, d2); }
+                                                static struct region R_e1, R_e2, R_d1; static int init;
+                                                if (!init) { R_e1 = mk(); R_e2 = mk(); R_d1 = mk(); init = 1; }
+                                                uint8_t *pe1 = place(R_e1, eb, 0), *pe2 = place(R_e2, eb, 0), *pd1 = place(R_d1, eb, 0);
+                                                memcpy(pe1, e1, eb); memcpy(pe2, e2, eb); memcpy(pd1, d1, eb);
+                                                cases++;
+                                                if (sigsetjmp(jb, 1)) {
+                                                        printf("FAULT xts %s expanded-key AES-%d N=%u placement=%s: access at %p outside the caller's ranges\ncases=%lu\n",
+                                                               F->name, ks ? 256 : 128, n, mode ? "begins-after-unmapped" : "ends-at-unmapped", (void *) fault_addr, cases);
+                                                        return 1;
+                                                }
+                                                memset(out, 0, n); memset(back, 0, n);
+                                                F->ence[ks](pe2, pe1, tw, n, in, out);
+                                                F->dece[ks](pe2, pd1, tw, n, out, back);
+                                                if (memcmp(pe1, e1, eb) || memcmp(pe2, e2, eb) || memcmp(pd1, d1, eb) || memcmp(in, src, n) || memcmp(tw, twv, 16)) {
+                                                        printf("MODIFIED-INPUT xts %s expanded-key AES-%d N=%u\ncases=%lu\n", F->name, ks ? 256 : 128, n, cases); return 1; }
+                                                if (memcmp(out, ref, n)) { printf("DIFFERENT-RESULT xts %s AES-%d N=%u: expanded-key result != raw-key result\ncases=%lu\n", F->name, ks ? 256 : 128, n, cases); return 1; }
+                                                if (memcmp(back, src, n)) { printf("ROUNDTRIP xts %s expanded-key AES-%d N=%u\ncases=%lu\n", F->name, ks ? 256 : 128, n, cases); return 1; }
+                                        }
                                 }
         }
         /* ---- CBC ---- */
